@@ -77,7 +77,7 @@ def h_stream(env):
             rio = io.BytesIO(bytes(data))
             for i, t in enumerate(types):
                 r = proto.parse_length_prefixed(ref[t], rio)
-                env.check("oracle:reference-reads-frame", r is not None and sm.canon_equal(cat, t, sm.canon_of_ref(cat, t, r), sm.canon_of_value(cat, t, vals[i]), unknown=False))
+                env.check("witness:reference-reads-frame", r is not None and sm.canon_equal(cat, t, sm.canon_of_ref(cat, t, r), sm.canon_of_value(cat, t, vals[i]), unknown=False))
             out = io.BytesIO()
             for i, t in enumerate(types):
                 proto.serialize_length_prefixed(sm.to_ref(ref, cat, t, {k: v for k, v in vals[i].items() if k != "__unknown__"}), out)
